@@ -183,7 +183,8 @@ def run(ck):
         hv = H.build_exec_harness('c10-hist-%s-asan' % ('ts' if ts else 'nots'), ts=ts)
         cfg = H.hx(b'[snoopy]\nmessage_format = "M %{cmdline}"\noutput = file:log\n')
         call = 'call execve %s [h61+h62] [] -1 2' % H.hx(b'/x')
-        for order in (['atforkexec', call], [call, 'atforkexec'], ['atforkexec'], ['atforkexec', call, call], ['atforkfork', call], [call, 'atforkfork'], ['atforkfork']):
+        for order in (['atforkexec', call], [call, 'atforkexec'], ['atforkexec'], ['atforkexec', call, call], ['atforkfork', call], [call, 'atforkfork'], ['atforkfork'],
+                      ['atforkprefork', 'atforkexec', call], ['atforkexec', 'atforkprefork', call], [call, 'atforkprefork', 'atforkexec'], ['atforkprefork', 'atforkfork', call]):
             for depth in (1, 2):
                 script = ['sinks pipe', 'lean 1', 'cfg ' + cfg] + order + ['forkname ' + H.hx(b'kid')] * depth + [call, 'echo end']
                 w = os.path.join(ck.workdir, 'forkhist-%d' % hist_n)
@@ -191,13 +192,16 @@ def run(ck):
                 r = H.run_script(hv['h_exec'], w, '\n'.join(script), timeout=30)
                 name = 'atfork_child_handler_execs:%s:%s:fork_depth=%d' % ('ts' if ts else 'nots', '>'.join('call' if o.startswith('call') else o for o in order), depth)
                 handler_calls = [l for l in r['lines'] if 'atfork_child_call' in l]
+                if 'atforkprefork' in order and not any(o in order for o in ('atforkexec', 'atforkfork')):
+                    pass
                 ended = any(l.get('echo') == 'end' for l in r['lines'])
                 total += 1
                 outcomes.add((name, r['done'], len(handler_calls), ended))
                 bad = []
                 if not r['done'] or not ended:
                     bad.append('child_did_not_complete_its_exec_call')
-                if len(handler_calls) != depth or any(h.get('reached_real_exec') != 1 for h in handler_calls):
+                # (with a helper forked from the prepare handler the child handlers run in the helper, too: at least one call per forked child of the history)
+                if (len(handler_calls) < depth if 'atforkprefork' in order else len(handler_calls) != depth) or any(h.get('reached_real_exec') != 1 for h in handler_calls):
                     bad.append('handler_call_did_not_reach_real_exec_once')
                 if r['san']:
                     bad.append('sanitizer')
@@ -225,6 +229,24 @@ def run(ck):
     if rv.returncode != 0:
         ck.violation('C10:parent_thread_inside_the_library_%s:application_prepare_handler_vforks_and_execs_while_another_thread_is_inside_a_call' % ('killed_by_signal_%d' % -rv.returncode if rv.returncode < 0 else 'exit_%d' % rv.returncode),
                      {'rc': rv.returncode, 'stdout': rv.stdout.decode()[-300:], 'stderr': rv.stderr.decode()[-300:]})
+    # ---- the very first call into the library is made by a second thread AFTER the first thread's fork() has begun (glibc has taken its snapshot of the
+    # registered handlers): handlers the library registered only during that first call would not run for this fork.  Fixed schedule (native/h_late.c:
+    # the thread is parked inside the library's guarded time-zone region by an interposed tzset), real shared library; 'warm' is the control.
+    ld = os.path.join(ck.workdir, 'late')
+    shutil.rmtree(ld, ignore_errors=True)
+    os.makedirs(ld)
+    rcc = sh(['gcc', '-O0', '-g', '-pthread', '-rdynamic', '-o', os.path.join(ld, 'late'), os.path.join(VERIF, 'native/h_late.c'), '-ldl'])
+    if rcc.returncode:
+        raise RuntimeError('h_late build failed: ' + rcc.stderr.decode()[:300])
+    open(os.path.join(ld, 'snoopy.ini'), 'w').write('[snoopy]\nmessage_format = "%%{datetime} %%{cmdline}"\noutput = "file:%s/log"\n' % ld)
+    for mode in ('warm', 'late'):
+        rv = sh([os.path.join(ld, 'late'), mode], env=dict(CLEAN_ENV, LD_PRELOAD=so['so'], VERIF_SNOOPY_INI=os.path.join(ld, 'snoopy.ini')), timeout=120)
+        total += 1
+        outcomes.add(('first_call_after_fork_began', mode, rv.returncode))
+        if rv.returncode != 0:
+            if mode == 'warm':
+                raise RuntimeError('h_late control run failed (%s): %s' % (rv.returncode, rv.stderr.decode()[-300:]))
+            ck.violation('C10:child_blocked_on_a_lock_of_the_library:first_call_into_the_library_made_after_the_fork_had_begun', {'rc': rv.returncode, 'stdout': rv.stdout.decode()[-300:], 'stderr': rv.stderr.decode()[-300:]})
     ck.assumptions += ['fork points = scheduling points of the other thread (sync operations; function entries in the fn campaign)', 'sequentially consistent interleavings']
     ck.coverage(states=len(outcomes) + hashed_states[0], scheduler_states_in_hashed_passes=hashed_states[0], transitions=total, traces_validated_against_impl=total, evaluations=total, distinct_nontrivial=max(len(outcomes), len(fork_points)),
                 rule='all schedules within the preemption bound per campaign (output x child depth x calls); distinct = max(distinct (campaign, verdict, child status), distinct fork positions relative to the other thread)',
